@@ -238,6 +238,10 @@ package bgp
 //@   loop 0 decreases len(value)
 //@   ensures err != nil ==> freshMsgErr(err)
 //@ func (*PathAttributeAs4Path).DecodeFromBytes
+//@   tag C05 C04
+// from C04 "parse back to an equal message under the same session options (... 2- or 4-octet AS numbers ...)": AS4_PATH holds 4-octet members under
+// every option - its value is checked as such, the session's AS-width option plays no part
+//@   at-call validateAsPathValueBytes(value requires len(arg1) == 0
 //@   modifies p.*
 //@   loop 0 decreases len(value)
 //@   ensures err != nil ==> freshMsgErr(err)
@@ -908,9 +912,13 @@ func verifLenIsHeaderPlusLength(p *PathAttribute) bool {
 //@   claims inv-init inv-keep
 //@   loop 0 invariant (pre(nhlen) == 16*len(nhs) || pre(nhlen) == 4*len(nhs)) && pre(l) == 5 + mpNHLen(safi, pre(nhlen), len(nhs))
 //@ func (*PathAttributeMpReachNLRI).Serialize
+//@   math-int
 //@   requires p != nil
-//@   claims at-call
 //@   at-call append(buf, uint8(nexthoplen)) requires nexthoplen == mpNHLen(safi, isNexthopIPv6 ? 16*len(nexthopAddrs) : 4*len(nexthopAddrs), len(nexthopAddrs))
+// ... and inside the next-hop field every address of a VPN family is preceded by its (zero) 8-octet route
+// distinguisher (RFC 4364 4.3.2 / RFC 4659 3.2.1): each next hop moves the write position on by RD plus address
+//@   claims at-call step
+//@   loop 0 step index == header(index) + offset + len(nh)
 
 // the length in the header that is written is the length of what is written (and has passed the size check of
 // the session, C11), whatever Header.Len held before - a parsed message carries the length it was received with
